@@ -117,7 +117,9 @@ func (w *World) fault(kind, target string) {
 	w.faultsFired[kind]++
 	w.jl(&journal.Ev{K: journal.KFault, Vb: -1, S: kind, ID: target})
 }
-func (w *World) note(f string, a ...any) { w.jl(&journal.Ev{K: journal.KNote, Vb: -1, S: fmt.Sprintf(f, a...)}) }
+func (w *World) note(f string, a ...any) {
+	w.jl(&journal.Ev{K: journal.KNote, Vb: -1, S: fmt.Sprintf(f, a...)})
+}
 
 // poke wakes the scheduler out of an "advance until something happens" wait.
 func (w *World) poke() {
